@@ -1,14 +1,18 @@
 """C11: generator of EffVy programs (valid skeletons x single-rule violations), printers to Vyper source and to Coq.
 
-Program = list of functions; function = dict(mut, vis, body).  Expressions / statements are tuples mirroring
-coq/C11/Effects.v.  Function index = position in the list; function 0 is always the constructor.
+Program = dict(funs=[function...], owns="NoOwn"|"Uses"|"Initializes"); function = dict(mut, vis, lib, body).
+Expressions / statements are tuples mirroring coq/C11/Effects.v (an optional trailing tag selects the concrete
+builtin / array operation when printing Vyper; the Coq term ignores it).  Function index = position in the list;
+function 0 is the constructor, then the functions of the library module lib1, then the main contract's.
 """
 
 MUTS = ["Pure", "View", "NonPay", "Pay"]
 RANK = {m: i for i, m in enumerate(MUTS)}
-ARR = 9  # variable index reserved for the array variables (self.arr / la)
+ARR = 9   # variable index of the fixed arrays (self.arr / la)
+DARR = 8  # variable index of the dynamic arrays (self.darr / lda)
+LIBVARS = (5, 6)
 
-HEADER = """
+COMMON = """
 interface Ext:
     def ext_pure(x: uint256) -> uint256: pure
     def ext_view(x: uint256) -> uint256: view
@@ -18,12 +22,17 @@ interface Ext:
 event Ev:
     x: uint256
 
+TGT: constant(address) = {tgt}
+"""
+
+HEADER = """
+{imports}
 s0: uint256
 s1: uint256
 arr: uint256[3]
+darr: DynArray[uint256, 4]
 t0: transient(uint256)
 C0: constant(uint256) = 7
-TGT: constant(address) = {tgt}
 IMM: immutable(uint256)
 
 @external
@@ -31,6 +40,12 @@ def setup(x: uint256, y: uint256):
     self.s0 = x
     self.s1 = y
     self.arr = [x, y, 3]
+    self.darr = [y, x]
+"""
+
+LIB_HEADER = """
+c5: uint256
+c6: uint256
 """
 
 EXT_SRC = """
@@ -58,25 +73,37 @@ def ext_pay(x: uint256) -> uint256:
     return x
 
 @external
+@payable
 def __default__():
     pass
 """
 
+LOCALS = "    l0: uint256 = 0\n    l1: uint256 = 0\n    la: uint256[3] = [1, 2, 3]\n    lda: DynArray[uint256, 4] = [1, 2]"
+
 
 # ------------------------------------------------------------------ printers: Vyper
-def v_var(k, x):
+class PCtx:
+    def __init__(self, prog, in_lib):
+        self.prog, self.in_lib, self.n = prog, in_lib, 0
+
+
+def v_var(k, x, cx):
     if x == ARR:
         return {"VStorage": "self.arr[0]", "VLocal": "la[0]"}[k]
+    if x == DARR:
+        return {"VStorage": "self.darr[0]", "VLocal": "lda[0]"}[k]
+    if k == "VStorage" and x in LIBVARS:
+        return f"self.c{x}" if cx.in_lib else f"lib1.c{x}"
     return {"VLocal": f"l{x}", "VArg": "a", "VStorage": f"self.s{x}", "VTransient": "self.t0", "VConst": "C0",
             "VImm": "IMM", "VLoop": f"i{x}"}[k]
 
 
-def v_expr(e):
+def v_expr(e, cx):
     t = e[0]
     if t == "ELit":
         return str(e[1])
     if t == "EVar":
-        return v_var(e[1], e[2])
+        return v_var(e[1], e[2], cx)
     if t == "EEnv":
         return ["block.number", "block.timestamp", "convert(msg.sender, uint256)", "chain.id", "convert(tx.origin, uint256)"][e[1] % 5]
     if t == "EAddrMember":
@@ -84,91 +111,132 @@ def v_expr(e):
     if t == "EMsgValue":
         return "msg.value"
     if t == "EBin":
-        return f"({v_expr(e[1])} | {v_expr(e[2])})"
+        return f"({v_expr(e[1], cx)} | {v_expr(e[2], cx)})"
     if t == "ECall":
-        return f"self.f{e[1]}({v_expr(e[2])})"
+        j = e[1]
+        callee_lib = j < len(cx.prog["funs"]) and cx.prog["funs"][j].get("lib")
+        if callee_lib:
+            pre = "self" if cx.in_lib else "lib1"
+            return f"{pre}.g{j}({v_expr(e[2], cx)})"
+        return f"self.f{j}({v_expr(e[2], cx)})"
     if t == "EExtCall":
         kw = {"KExt": "extcall", "KStatic": "staticcall"}[e[1]]
         fn = {"Pure": "ext_pure", "View": "ext_view", "NonPay": "ext_mod", "Pay": "ext_pay"}[e[2]]
-        return f"({kw} Ext(TGT).{fn}({v_expr(e[3])}))"
+        return f"({kw} Ext(TGT).{fn}({v_expr(e[3], cx)}))"
     if t == "EBuiltin":
-        a = v_expr(e[2])
+        a = v_expr(e[2], cx)
+        tag = e[3] if len(e) > 3 else None
+        ua = f"(empty(uint256) | {a})"
         if e[1] == "Pure":
+            if tag == "keccak":
+                return f"convert(keccak256(convert({ua}, bytes32)), uint256)"
             return f"uint256_addmod({a}, 1, 7)"
         if e[1] == "View":
-            return f"convert(raw_call(TGT, abi_encode(empty(uint256) | {a}), max_outsize=32, is_static_call=True), uint256)"
-        return f"convert(raw_call(TGT, abi_encode(empty(uint256) | {a}), max_outsize=32), uint256)"
+            if tag == "blockhash":
+                return f"convert(blockhash({ua}), uint256)"
+            return f"convert(raw_call(TGT, abi_encode({ua}), max_outsize=32, is_static_call=True), uint256)"
+        if tag == "raw_call_value":
+            return f"convert(raw_call(TGT, b\"\", max_outsize=32, value={ua}), uint256)"
+        if tag == "raw_call_delegate":
+            return f"convert(raw_call(TGT, abi_encode({ua}), max_outsize=32, is_delegate_call=True), uint256)"
+        if tag == "create_minimal":
+            return f"convert(create_minimal_proxy_to(TGT, value={ua}), uint256)"
+        if tag == "create_copy":
+            return f"convert(create_copy_of(TGT, value={ua}), uint256)"
+        return f"convert(raw_call(TGT, abi_encode({ua}), max_outsize=32), uint256)"
     raise ValueError(e)
 
 
-class _Ctr:
-    def __init__(self):
-        self.n = 0
+STMT_ONLY = ("send", "raw_log", "selfdestruct")
 
 
-def v_stmt(s, ind, ctr):
+def v_stmt(s, ind, cx):
     pad = "    " * ind
     t = s[0]
+    E = lambda e: v_expr(e, cx)  # noqa
     if t == "SSkip":
         return [pad + "pass"]
     if t == "SSeq":
-        return v_stmt(s[1], ind, ctr) + v_stmt(s[2], ind, ctr)
+        return v_stmt(s[1], ind, cx) + v_stmt(s[2], ind, cx)
     if t == "SAssign":
-        if s[2] == ARR and s[1] in ("VStorage", "VLocal") and len(s) > 4 and s[4] == "whole":
-            tgt = "self.arr" if s[1] == "VStorage" else "la"
-            return [pad + f"{tgt} = [{v_expr(s[3])}, 2, 3]"]
-        return [pad + f"{v_var(s[1], s[2])} = {v_expr(s[3])}"]
+        tag = s[4] if len(s) > 4 else None
+        if s[2] in (ARR, DARR) and tag:
+            base = {(ARR, "VStorage"): "self.arr", (ARR, "VLocal"): "la", (DARR, "VStorage"): "self.darr", (DARR, "VLocal"): "lda"}[(s[2], s[1])]
+            if tag == "whole":
+                return [pad + f"{base} = [{E(s[3])}, 2, 3]"]
+            if tag == "append":
+                return [pad + f"{base}.append({E(s[3])})"]
+            if tag == "pop":
+                cx.n += 1
+                return [pad + f"d{cx.n}: uint256 = {base}.pop() | {E(s[3])}"]
+        return [pad + f"{v_var(s[1], s[2], cx)} = {E(s[3])}"]
     if t == "SAug":
-        return [pad + f"{v_var(s[1], s[2])} |= {v_expr(s[3])}"]
+        return [pad + f"{v_var(s[1], s[2], cx)} |= {E(s[3])}"]
     if t == "SExpr":
-        ctr.n += 1
-        return [pad + f"d{ctr.n}: uint256 = {v_expr(s[1])}"]
+        e = s[1]
+        if e[0] == "EBuiltin" and len(e) > 3 and e[3] in STMT_ONLY:
+            a = E(e[2])
+            if e[3] == "send":
+                return [pad + f"send(TGT, empty(uint256) | {a})"]
+            if e[3] == "raw_log":
+                return [pad + f"raw_log([convert(empty(uint256) | {a}, bytes32)], b\"x\")"]
+            return [pad + f"if (empty(uint256) | {a}) == 12345:", pad + "    selfdestruct(TGT)"]
+        cx.n += 1
+        return [pad + f"d{cx.n}: uint256 = {E(e)}"]
     if t == "SLog":
-        return [pad + f"log Ev(x={v_expr(s[1])})"]
+        return [pad + f"log Ev(x={E(s[1])})"]
     if t == "SIf":
-        out = [pad + f"if {v_expr(s[1])} != 0:"] + v_stmt(s[2], ind + 1, ctr)
+        out = [pad + f"if {E(s[1])} != 0:"] + v_stmt(s[2], ind + 1, cx)
         if s[3][0] != "SSkip":
-            out += [pad + "else:"] + v_stmt(s[3], ind + 1, ctr)
+            out += [pad + "else:"] + v_stmt(s[3], ind + 1, cx)
         return out
     if t == "SFor":
         r = s[2]
         if r[0] == "RLit":
             it = f"range({r[1]})"
         elif r[0] == "RBound":
-            it = f"range({v_expr(r[1])}, bound={r[2]})"
+            it = f"range({E(r[1])}, bound={r[2]})"
         else:
-            it = f"range({v_expr(r[1])})"
-        return [pad + f"for i{s[1]}: uint256 in {it}:"] + v_stmt(s[3], ind + 1, ctr)
+            it = f"range({E(r[1])})"
+        return [pad + f"for i{s[1]}: uint256 in {it}:"] + v_stmt(s[3], ind + 1, cx)
     if t == "SForList":
-        it = "self.arr" if s[2] == "VStorage" else "la"
-        return [pad + f"for i{s[1]}: uint256 in {it}:"] + v_stmt(s[5], ind + 1, ctr)
+        it = {(ARR, "VStorage"): "self.arr", (ARR, "VLocal"): "la", (DARR, "VStorage"): "self.darr", (DARR, "VLocal"): "lda"}[(s[3], s[2])]
+        return [pad + f"for i{s[1]}: uint256 in {it}:"] + v_stmt(s[5], ind + 1, cx)
     if t == "SReturn":
-        return [pad + f"return {v_expr(s[1])}"]
+        return [pad + f"return {E(s[1])}"]
     raise ValueError(s)
 
 
 def v_prog(prog, tgt):
-    out = [HEADER.format(tgt=tgt)]
-    ctr = _Ctr()
-    for i, f in enumerate(prog):
+    """returns (main source, lib source or None)"""
+    funs = prog["funs"]
+    has_lib = any(f.get("lib") for f in funs) or prog["owns"] != "NoOwn"
+    imports = ""
+    if has_lib:
+        imports = "import lib1\n" + {"NoOwn": "", "Uses": "uses: lib1\n", "Initializes": "initializes: lib1\n"}[prog["owns"]]
+    main = [COMMON.format(tgt=tgt), HEADER.format(imports=imports)]
+    lib = [COMMON.format(tgt=tgt), LIB_HEADER]
+    cm, cl = PCtx(prog, False), PCtx(prog, True)
+    for i, f in enumerate(funs):
         if f["vis"] == "Ctor":
-            out.append("@deploy")
+            main.append("@deploy")
             if f["mut"] == "Pay":
-                out.append("@payable")
-            out.append("def __init__():")
-            out.append("    l0: uint256 = 0\n    l1: uint256 = 0\n    la: uint256[3] = [1, 2, 3]")
-            out += v_stmt(f["body"], 1, ctr)
-            out.append("")
+                main.append("@payable")
+            main.append("def __init__():")
+            main.append(LOCALS)
+            main += v_stmt(f["body"], 1, cm)
+            main.append("")
             continue
+        out, cx, nm = (lib, cl, f"g{i}") if f.get("lib") else (main, cm, f"f{i}")
         out.append("@external" if f["vis"] == "External" else "@internal")
         dec = {"Pure": "@pure", "View": "@view", "NonPay": None, "Pay": "@payable"}[f["mut"]]
         if dec:
             out.append(dec)
-        out.append(f"def f{i}(a: uint256) -> uint256:")
-        out.append("    l0: uint256 = 0\n    l1: uint256 = 0\n    la: uint256[3] = [1, 2, 3]")
-        out += v_stmt(f["body"], 1, ctr)
+        out.append(f"def {nm}(a: uint256) -> uint256:")
+        out.append(LOCALS)
+        out += v_stmt(f["body"], 1, cx)
         out.append("")
-    return "\n".join(out)
+    return "\n".join(main), ("\n".join(lib) if has_lib else None)
 
 
 # ------------------------------------------------------------------ printers: Coq
@@ -215,11 +283,71 @@ def c_stmt(s):
 
 
 def c_prog(prog):
-    fs = "; ".join(f"(mk_fn {f['mut']} {f['vis']} {c_stmt(f['body'])})" for f in prog)
-    return f"(mk_prog [{fs}] (fun _ => 7))"
+    fs = "; ".join(f"(mk_fn {f['mut']} {f['vis']} {'true' if f.get('lib') else 'false'} {c_stmt(f['body'])})" for f in prog["funs"])
+    return f"(mk_prog [{fs}] (fun _ => 7) {prog['owns']})"
 
 
-# ------------------------------------------------------------------ generation
+# ------------------------------------------------------------------ static facts used by the generator
+def callees(t, out=None):
+    out = [] if out is None else out
+    if isinstance(t, tuple):
+        if t and t[0] == "ECall":
+            out.append(t[1])
+        for x in t:
+            callees(x, out)
+    return out
+
+
+def direct_writes(s, out=None):
+    out = set() if out is None else out
+    t = s[0]
+    if t in ("SSeq",):
+        direct_writes(s[1], out), direct_writes(s[2], out)
+    elif t == "SIf":
+        direct_writes(s[2], out), direct_writes(s[3], out)
+    elif t in ("SAssign", "SAug"):
+        if s[1] in ("VStorage", "VTransient", "VImm"):
+            out.add((s[1], s[2]))
+    elif t == "SFor":
+        direct_writes(s[3], out)
+    elif t == "SForList":
+        direct_writes(s[5], out)
+    return out
+
+
+def touches_lib(t):
+    if isinstance(t, tuple):
+        if len(t) >= 3 and t[0] in ("EVar", "SAssign", "SAug", "SForList"):
+            k, x = (t[2], t[3]) if t[0] == "SForList" else (t[1], t[2])
+            if k == "VStorage" and x in LIBVARS:
+                return True
+        return any(touches_lib(x) for x in t)
+    return False
+
+
+def summarize(funs):
+    """per function: transitive state write set and 'uses lib state' flag"""
+    W, U = {}, {}
+
+    def go(i, depth=0):
+        if i in W:
+            return
+        if i >= len(funs) or depth > len(funs):
+            W[i], U[i] = set(), False
+            return
+        W[i], U[i] = set(), False  # cycle guard
+        w = direct_writes(funs[i]["body"])
+        u = touches_lib(funs[i]["body"])
+        for j in callees(funs[i]["body"]):
+            go(j, depth + 1)
+            w |= W.get(j, set())
+            u = u or U.get(j, False)
+        W[i], U[i] = w, u
+    for i in range(len(funs)):
+        go(i)
+    return W, U
+
+
 def seq(stmts):
     if not stmts:
         return ("SSkip",)
@@ -229,32 +357,57 @@ def seq(stmts):
     return out
 
 
+NP_EXPR_TAGS = [None, "raw_call_value", "raw_call_delegate", "create_minimal", "create_copy"]
+
+
 class Gen:
     def __init__(self, rnd):
         self.rnd = rnd
 
-    def leaf(self, mut, loops):
+    def leaf(self, f, loops):
         r = self.rnd
-        opts = [("ELit", r.choice([0, 1, 2, 5])), ("EVar", "VLocal", r.choice([0, 1])), ("EVar", "VArg", 0), ("EVar", "VConst", 0)]
+        mut = f["mut"]
+        opts = [("ELit", r.choice([0, 1, 2, 5])), ("EVar", "VLocal", r.choice([0, 1])), ("EVar", "VArg", 0)]
+        if not f.get("lib"):
+            opts.append(("EVar", "VConst", 0))
         if loops:
             opts.append(("EVar", "VLoop", r.choice(loops)))
         if RANK[mut] >= 1:
-            opts += [("EVar", "VStorage", r.choice([0, 1])), ("EVar", "VTransient", 0), ("EVar", "VImm", 0),
-                     ("EEnv", r.randrange(5)), ("EAddrMember", r.randrange(4))]
+            opts += [("EEnv", r.randrange(5)), ("EAddrMember", r.randrange(4))]
+            if f.get("lib"):
+                opts += [("EVar", "VStorage", r.choice(LIBVARS))] * 2
+            else:
+                opts += [("EVar", "VStorage", r.choice([0, 1])), ("EVar", "VTransient", 0), ("EVar", "VImm", 0)]
+                if self.owns != "NoOwn":
+                    opts.append(("EVar", "VStorage", r.choice(LIBVARS)))
         if mut == "Pay":
             opts.append(("EMsgValue",))
         return r.choice(opts)
 
-    def expr(self, mut, callees, loops, depth, prog):
+    def callable(self, f, j, iter_arrays):
+        g = self.funs[j]
+        mut = f["mut"]
+        if not (RANK[g["mut"]] <= RANK[mut] or RANK[mut] >= 2):
+            return False
+        if f.get("lib") and not g.get("lib"):
+            return False
+        if not f.get("lib") and g.get("lib") and self.owns == "NoOwn" and self.U[j]:
+            return False
+        if any(q in self.W[j] for q in iter_arrays):
+            return False
+        return True
+
+    def expr(self, f, callees_, loops, depth, iter_arrays=()):
         r = self.rnd
+        mut = f["mut"]
         if depth <= 0 or r.random() < 0.3:
-            return self.leaf(mut, loops)
+            return self.leaf(f, loops)
         k = r.random()
-        sub = lambda: self.expr(mut, callees, loops, depth - 1, prog)  # noqa
+        sub = lambda: self.expr(f, callees_, loops, depth - 1, iter_arrays)  # noqa
         if k < 0.35:
             return ("EBin", sub(), sub())
         if k < 0.6:
-            ok = [j for j in callees if RANK[prog[j]["mut"]] <= RANK[mut] or RANK[mut] >= 2]
+            ok = [j for j in callees_ if self.callable(f, j, iter_arrays)]
             if ok:
                 return ("ECall", r.choice(ok), sub())
         if k < 0.8:
@@ -262,62 +415,70 @@ class Gen:
             m = r.choice(ms)
             return ("EExtCall", "KExt" if RANK[m] >= 2 else "KStatic", m, sub())
         ms = [m for m in ("Pure", "View", "NonPay") if RANK[m] <= RANK[mut] or RANK[mut] >= 2]
-        return ("EBuiltin", r.choice(ms), sub())
+        m = r.choice(ms)
+        tag = {"Pure": r.choice([None, "keccak"]), "View": r.choice([None, None, "blockhash"]), "NonPay": r.choice(NP_EXPR_TAGS)}[m]
+        return ("EBuiltin", m, sub(), tag)
 
-    def nomod(self, e):
-        """expression without state-modifying calls (for range bounds)"""
-        t = e[0]
-        if t == "EBin":
-            return self.nomod(e[1]) and self.nomod(e[2])
-        if t == "ECall":
-            return False  # conservative: callee mutability not tracked here
-        if t == "EExtCall":
-            return RANK[e[2]] < 2 and self.nomod(e[3])
-        if t == "EBuiltin":
-            return RANK[e[1]] < 2 and self.nomod(e[2])
-        return True
-
-    def stmts(self, f, callees, loops, depth, prog, n, iter_arrays=()):
+    def stmts(self, f, callees_, loops, depth, n, iter_arrays=()):
         r = self.rnd
-        mut, vis = f["mut"], f["vis"]
+        mut, vis, lib = f["mut"], f["vis"], f.get("lib")
         out = []
         for _ in range(n):
-            E = lambda d=2: self.expr(mut, callees, loops, d, prog)  # noqa
+            E = lambda d=2: self.expr(f, callees_, loops, d, iter_arrays)  # noqa
             k = r.random()
-            if k < 0.25:
+            if k < 0.22:
                 out.append(("SAssign", "VLocal", r.choice([0, 1]), E()))
-            elif k < 0.35:
+            elif k < 0.3:
                 out.append(("SAug", "VLocal", r.choice([0, 1]), E()))
-            elif k < 0.45 and RANK[mut] >= 2:
-                tgt = r.choice([("VStorage", 0), ("VStorage", 1), ("VTransient", 0)])
-                out.append((r.choice(["SAssign", "SAug"]), tgt[0], tgt[1], E()))
-            elif k < 0.5 and RANK[mut] >= 2:
+            elif k < 0.42 and RANK[mut] >= 2:
+                if lib:
+                    tg = [("VStorage", x) for x in LIBVARS]
+                else:
+                    tg = [("VStorage", 0), ("VStorage", 1), ("VTransient", 0)]
+                    if self.owns != "NoOwn":
+                        tg.append(("VStorage", LIBVARS[0]))
+                    if ("VStorage", ARR) not in iter_arrays:
+                        tg.append(("VStorage", ARR))
+                    if ("VStorage", DARR) not in iter_arrays:
+                        tg.append(("VStorage", DARR))
+                tgt = r.choice(tg)
+                if tgt[1] == DARR:
+                    out.append(("SAssign", tgt[0], tgt[1], E(1), "append"))
+                elif tgt[1] == ARR:
+                    out.append(("SAssign", tgt[0], tgt[1], E(1)))
+                else:
+                    out.append((r.choice(["SAssign", "SAug"]), tgt[0], tgt[1], E()))
+            elif k < 0.47 and RANK[mut] >= 2:
                 out.append(("SLog", E()))
-            elif k < 0.55 and vis == "Internal":
+            elif k < 0.52 and RANK[mut] >= 2:
+                out.append(("SExpr", ("EBuiltin", "NonPay", E(1), r.choice(STMT_ONLY))))
+            elif k < 0.56 and vis == "Internal":
                 out.append(("SAssign", "VArg", 0, E()))
-            elif k < 0.62:
+            elif k < 0.6 and ("VLocal", DARR) not in iter_arrays and ("VLocal", ARR) not in iter_arrays:
+                out.append(("SAssign", "VLocal", DARR, E(1), r.choice(["append", "pop"])) if r.random() < 0.5 else ("SAssign", "VLocal", ARR, E(1)))
+            elif k < 0.65:
                 out.append(("SExpr", E()))
-            elif k < 0.72 and depth > 0:
-                out.append(("SIf", E(1), seq(self.stmts(f, callees, loops, depth - 1, prog, r.choice([1, 2]), iter_arrays)),
-                            seq(self.stmts(f, callees, loops, depth - 1, prog, r.choice([0, 1]), iter_arrays))))
-            elif k < 0.9 and depth > 0 and len(loops) < 2:
+            elif k < 0.73 and depth > 0:
+                out.append(("SIf", E(1), seq(self.stmts(f, callees_, loops, depth - 1, r.choice([1, 2]), iter_arrays)),
+                            seq(self.stmts(f, callees_, loops, depth - 1, r.choice([0, 1]), iter_arrays))))
+            elif k < 0.92 and depth > 0 and len(loops) < 2:
                 i = len(loops)
-                body = lambda ia=iter_arrays: seq(self.stmts(f, callees, loops + [i], depth - 1, prog, r.choice([1, 2]), ia))  # noqa
+                body = lambda ia=iter_arrays: seq(self.stmts(f, callees_, loops + [i], depth - 1, r.choice([1, 2]), ia))  # noqa
                 kk = r.random()
-                if kk < 0.35:
+                if kk < 0.3:
                     out.append(("SFor", i, ("RLit", r.choice([1, 2, 3])), body()))
-                elif kk < 0.7:
-                    # a non-constant, non-modifying count that the optimiser cannot prove larger than the bound
+                elif kk < 0.6:
                     leafs = [("EVar", "VLocal", r.choice([0, 1]))] + ([("EVar", "VArg", 0)] if vis != "Ctor" else [])
-                    if RANK[mut] >= 1:
+                    if RANK[mut] >= 1 and not lib:
                         leafs += [("EVar", "VStorage", r.choice([0, 1])), ("EVar", "VTransient", 0)]
                     e = r.choice(leafs)
                     if r.random() < 0.4:
                         e = ("EExtCall", "KStatic", "Pure" if RANK[mut] < 1 or r.random() < 0.5 else "View", e)
                     out.append(("SFor", i, ("RBound", e, r.choice([1, 3, 5])), body()))
                 else:
-                    ak = "VLocal" if RANK[mut] < 1 or r.random() < 0.5 else "VStorage"
-                    out.append(("SForList", i, ak, ARR, 3, body(iter_arrays + ((ak, ARR),))))
+                    ak = "VLocal" if RANK[mut] < 1 or lib or r.random() < 0.5 else "VStorage"
+                    ax = r.choice([ARR, DARR])
+                    out.append(("SForList", i, ak, ax, 3 if ax == ARR else 4, body(iter_arrays + ((ak, ax),))))
             else:
                 out.append(("SAssign", "VLocal", 0, E(1)))
         if vis == "Ctor":
@@ -326,20 +487,25 @@ class Gen:
 
     def valid_program(self, nfun):
         r = self.rnd
-        prog = [{"mut": r.choice(["NonPay", "Pay"]), "vis": "Ctor", "body": ("SSkip",)}]
+        nlib = r.choice([0, 0, 1, 2]) if nfun >= 3 else 0
+        self.owns = r.choice(["NoOwn", "Initializes"]) if nlib else "NoOwn"
+        funs = [{"mut": r.choice(["NonPay", "Pay"]), "vis": "Ctor", "lib": False, "body": ("SSkip",)}]
+        self.funs, self.W, self.U = funs, {0: set()}, {0: False}
         for i in range(1, nfun + 1):
-            vis = "Internal" if i <= nfun // 2 or r.random() < 0.3 else "External"
+            lib = i <= nlib
+            vis = "Internal" if lib or i <= nlib + (nfun - nlib) // 2 or r.random() < 0.3 else "External"
             if i == nfun:
                 vis = "External"
-            f = {"mut": r.choice(MUTS), "vis": vis, "body": None}
-            callees = [j for j in range(1, i) if prog[j]["vis"] == "Internal"]
-            body = self.stmts(f, callees, [], 2, prog, r.choice([1, 2, 3]))
-            f["body"] = seq(body + [("SReturn", self.expr(f["mut"], callees, [], 1, prog))])
-            prog.append(f)
-        c = prog[0]
-        cb = [("SAssign", "VImm", 0, ("ELit", 5))] + self.stmts(c, [], [], 1, prog, r.choice([0, 1]))
-        c["body"] = seq([s for s in cb])
-        return prog
+            f = {"mut": r.choice(MUTS), "vis": vis, "lib": lib, "body": None}
+            cal = [j for j in range(1, i) if funs[j]["vis"] == "Internal"]
+            body = self.stmts(f, cal, [], 2, r.choice([1, 2, 3]))
+            f["body"] = seq(body + [("SReturn", self.expr(f, cal, [], 1))])
+            funs.append(f)
+            self.W, self.U = summarize(funs)
+        c = funs[0]
+        cb = [("SAssign", "VImm", 0, ("ELit", 5))] + self.stmts(c, [], [], 1, r.choice([0, 1]))
+        c["body"] = seq(cb)
+        return {"funs": funs, "owns": self.owns}
 
 
 def _uses_arg(s):
@@ -370,7 +536,6 @@ def replace_at(term, path, new):
 
 
 def stmt_expr_slots(s, path=(), loops=()):
-    """yield (path_to_expr, loops_in_scope) for every expression slot of the statement tree"""
     t = s[0]
     if t == "SSeq":
         yield from stmt_expr_slots(s[1], path + (1,), loops)
@@ -392,7 +557,6 @@ def stmt_expr_slots(s, path=(), loops=()):
 
 
 def stmt_slots(s, path=(), loops=(), arrays=()):
-    """yield (path, loops, arrays) of every statement position where a new statement can be put in front"""
     t = s[0]
     if t != "SSeq":
         yield path, loops, arrays
@@ -415,42 +579,67 @@ def get_at(term, path):
     return term
 
 
-def expr_violations(f, prog, fi):
-    """(rule, violating expression) applicable to function f (by its declared mutability)"""
+def expr_violations(f, prog, fi, U):
+    funs = prog["funs"]
     m = RANK[f["mut"]]
     a = ("EVar", "VLocal", 0)
     out = []
+    okcallee = lambda j: j != fi and funs[j]["vis"] == "Internal" and (funs[j].get("lib") or not f.get("lib"))  # noqa
     if m <= 1:
-        np_int = [j for j in range(1, len(prog)) if prog[j]["vis"] == "Internal" and RANK[prog[j]["mut"]] >= 2 and j != fi]
-        for j in np_int[:1]:
-            out.append(("view_calls_modifying_internal", ("ECall", j, a)))
+        np_int = [j for j in range(1, len(funs)) if okcallee(j) and RANK[funs[j]["mut"]] >= 2]
+        for j in np_int[:2]:
+            out.append(("view_calls_modifying_lib" if funs[j].get("lib") else "view_calls_modifying_internal", ("ECall", j, a)))
         out += [("view_extcall", ("EExtCall", "KExt", "NonPay", a)), ("view_extcall_payable", ("EExtCall", "KExt", "Pay", a)),
-                ("view_modifying_builtin", ("EBuiltin", "NonPay", a))]
+                ("view_raw_call", ("EBuiltin", "NonPay", a, None)), ("view_raw_call_value", ("EBuiltin", "NonPay", a, "raw_call_value")),
+                ("view_raw_call_delegate", ("EBuiltin", "NonPay", a, "raw_call_delegate")),
+                ("view_create_minimal", ("EBuiltin", "NonPay", a, "create_minimal")), ("view_create_copy", ("EBuiltin", "NonPay", a, "create_copy"))]
     if m == 0:
-        v_int = [j for j in range(1, len(prog)) if prog[j]["vis"] == "Internal" and RANK[prog[j]["mut"]] == 1 and j != fi]
+        v_int = [j for j in range(1, len(funs)) if okcallee(j) and RANK[funs[j]["mut"]] == 1]
         for j in v_int[:1]:
             out.append(("pure_calls_view_internal", ("ECall", j, a)))
         out += [("pure_env", ("EEnv", 0)), ("pure_env_sender", ("EEnv", 2)), ("pure_balance", ("EAddrMember", 0)),
-                ("pure_addr_member", ("EAddrMember", 2)), ("pure_storage_read", ("EVar", "VStorage", 0)),
-                ("pure_transient_read", ("EVar", "VTransient", 0)), ("pure_immutable_read", ("EVar", "VImm", 0)),
-                ("pure_staticcall_view", ("EExtCall", "KStatic", "View", a)), ("pure_view_builtin", ("EBuiltin", "View", a))]
+                ("pure_addr_member", ("EAddrMember", 2)),
+                ("pure_staticcall_view", ("EExtCall", "KStatic", "View", a)), ("pure_raw_call_static", ("EBuiltin", "View", a, None)),
+                ("pure_blockhash", ("EBuiltin", "View", a, "blockhash"))]
+        if f.get("lib"):
+            out.append(("pure_storage_read", ("EVar", "VStorage", LIBVARS[0])))
+        else:
+            out += [("pure_storage_read", ("EVar", "VStorage", 0)), ("pure_transient_read", ("EVar", "VTransient", 0)),
+                    ("pure_immutable_read", ("EVar", "VImm", 0))]
     if f["mut"] != "Pay":
-        out.append(("msg_value_nonpayable", ("EMsgValue",)))
+        out.append(("msg_value_internal" if f["vis"] == "Internal" else "msg_value_nonpayable", ("EMsgValue",)))
     out += [("keyword_staticcall_on_nonpayable", ("EExtCall", "KStatic", "NonPay", a)),
             ("keyword_extcall_on_view", ("EExtCall", "KExt", "View", a))]
+    # module rules (main contract without `initializes`)
+    if not f.get("lib") and prog["owns"] == "NoOwn" and any(g.get("lib") for g in funs):
+        if m >= 1:
+            out.append(("lib_state_read_without_initializes", ("EVar", "VStorage", LIBVARS[0])))
+        st = [j for j in range(1, len(funs)) if funs[j].get("lib") and U.get(j) and (RANK[funs[j]["mut"]] <= m or m >= 2)]
+        for j in st[:1]:
+            out.append(("lib_stateful_call_without_initializes", ("ECall", j, a)))
     return out
 
 
-def stmt_violations(f, loops, arrays):
+def stmt_violations(f, prog, fi, loops, arrays, W):
+    funs = prog["funs"]
     m = RANK[f["mut"]]
+    lib = f.get("lib")
     a = ("ELit", 1)
+    sv = ("VStorage", LIBVARS[0]) if lib else ("VStorage", 0)
     out = []
     if m <= 1:
-        out += [("view_storage_write", ("SAssign", "VStorage", 0, a)), ("view_transient_write", ("SAssign", "VTransient", 0, a)),
-                ("view_storage_augwrite", ("SAug", "VStorage", 1, a)), ("view_log", ("SLog", a))]
-    out.append(("constant_write", ("SAssign", "VConst", 0, a)))
-    if f["vis"] != "Ctor":
-        out.append(("immutable_write", ("SAssign", "VImm", 0, a)))
+        out += [("view_storage_write", ("SAssign",) + sv + (a,)), ("view_storage_augwrite", ("SAug",) + sv + (a,)), ("view_log", ("SLog", a)),
+                ("view_send", ("SExpr", ("EBuiltin", "NonPay", a, "send"))), ("view_raw_log", ("SExpr", ("EBuiltin", "NonPay", a, "raw_log"))),
+                ("view_selfdestruct", ("SExpr", ("EBuiltin", "NonPay", a, "selfdestruct")))]
+        if not lib:
+            out += [("view_transient_write", ("SAssign", "VTransient", 0, a)), ("view_array_write", ("SAssign", "VStorage", ARR, a)),
+                    ("view_dynarray_append", ("SAssign", "VStorage", DARR, a, "append")), ("view_dynarray_pop", ("SAssign", "VStorage", DARR, a, "pop"))]
+    if not lib:
+        out.append(("constant_write", ("SAssign", "VConst", 0, a)))
+        if f["vis"] != "Ctor":
+            out.append(("immutable_write", ("SAssign", "VImm", 0, a)))
+        if m >= 2 and prog["owns"] == "NoOwn" and any(g.get("lib") for g in funs):
+            out.append(("lib_state_write_without_initializes", ("SAssign", "VStorage", LIBVARS[1], a)))
     if f["vis"] == "External":
         out.append(("calldata_write", ("SAssign", "VArg", 0, a)))
     real_loops = [l for l in loops if l != "RANGE"]
@@ -462,38 +651,66 @@ def stmt_violations(f, loops, arrays):
         out += [("unbounded_range", ("SFor", i, ("RExpr", arg), ("SSkip",))),
                 ("zero_bound", ("SFor", i, ("RBound", arg, 0), ("SSkip",))),
                 ("empty_range", ("SFor", i, ("RLit", 0), ("SSkip",))),
-                ("bound_with_literal", ("SFor", i, ("RBound", ("ELit", 2), 5), ("SSkip",))),
-                ("bound_with_constant", ("SFor", i, ("RBound", ("EBin", ("EVar", "VConst", 0), ("EBuiltin", "Pure", ("ELit", 1))), 9), ("SSkip",)))]
+                ("bound_with_literal", ("SFor", i, ("RBound", ("ELit", 2), 5), ("SSkip",)))]
+        if not lib:
+            out.append(("bound_with_constant", ("SFor", i, ("RBound", ("EBin", ("EVar", "VConst", 0), ("EBuiltin", "Pure", ("ELit", 1))), 9), ("SSkip",))))
         if m >= 2:
             out.append(("range_modifying_call", ("SFor", i, ("RBound", ("EExtCall", "KExt", "NonPay", arg), 4), ("SSkip",))))
-        ak = "VLocal" if m < 1 else "VStorage"
-        if m >= 2 or ak == "VLocal":
-            out.append(("iterator_mutation", ("SForList", i, ak, ARR, 3, ("SIf", ("ELit", 1), ("SAssign", ak, ARR, a), ("SSkip",)))))
-            out.append(("iterator_mutation_whole", ("SForList", i, ak, ARR, 3, ("SAssign", ak, ARR, a, "whole"))))
+        ak = "VLocal" if m < 2 or lib else "VStorage"
+        out.append(("iterator_mutation", ("SForList", i, ak, ARR, 3, ("SIf", ("ELit", 1), ("SAssign", ak, ARR, a), ("SSkip",)))))
+        out.append(("iterator_mutation_whole", ("SForList", i, ak, ARR, 3, ("SAssign", ak, ARR, a, "whole"))))
+        out.append(("iterator_mutation_pop", ("SForList", i, ak, DARR, 4, ("SAssign", ak, DARR, a, "pop"))))
+        out.append(("iterator_mutation_append", ("SForList", i, ak, DARR, 4, ("SIf", arg, ("SAssign", ak, DARR, a, "append"), ("SSkip",)))))
+        if m >= 2 and not lib:
+            # through an internal call: some callee (transitively) writes the iterated storage array
+            for ax, ln in ((ARR, 3), (DARR, 4)):
+                cs = [j for j in range(1, len(funs)) if j != fi and funs[j]["vis"] == "Internal" and ("VStorage", ax) in W.get(j, ())]
+                for j in cs[:1]:
+                    out.append(("iterator_mutation_via_call", ("SForList", i, "VStorage", ax, ln,
+                                                               ("SAssign", "VLocal", 0, ("EBin", ("ELit", 1), ("ECall", j, arg))))))
     for (ak, ax) in arrays:
         if ak == "VLocal" or m >= 2:
-            out.append(("iterator_mutation_nested", ("SAssign", ak, ax, a)))
+            out.append(("iterator_mutation_nested", ("SAssign", ak, ax, a) if ax == ARR else ("SAssign", ak, ax, a, "pop")))
+        if ak == "VStorage" and m >= 2 and not lib:
+            cs = [j for j in range(1, len(funs)) if j != fi and funs[j]["vis"] == "Internal" and (ak, ax) in W.get(j, ())]
+            for j in cs[:1]:
+                out.append(("iterator_mutation_via_call_nested", ("SExpr", ("ECall", j, ("ELit", 1)))))
     return out
+
+
+def _in_return(body, path):
+    t = body
+    for i in path:
+        if t[0] == "SReturn":
+            return True
+        t = t[i]
+    return False
+
+
+def _is_return_root(body, path):
+    t = body
+    for n, i in enumerate(path):
+        if t[0] == "SReturn":
+            return n == len(path) - 1
+        t = t[i]
+    return False
 
 
 def mutants(prog, rnd, per_prog):
     """single-rule violations of a valid program: list of (rule, where, program)"""
+    funs = prog["funs"]
+    W, U = summarize(funs)
     cands = []
-    for fi, f in enumerate(prog):
+    for fi, f in enumerate(funs):
         body = f["body"]
         for spath, loops in stmt_expr_slots(body):
             e0 = get_at(body, spath)
             for epath in expr_positions(e0):
-                for rule, bad in expr_violations(f, prog, fi):
-                    if "RANGE" in loops and rule.startswith("view_"):
-                        pass
+                for rule, bad in expr_violations(f, prog, fi, U):
                     cands.append((rule, fi, "expr", spath + epath, bad, loops))
         for spath, loops, arrays in stmt_slots(body):
-            if get_at(body, spath)[0] == "SReturn" and False:
-                continue
-            for rule, bad in stmt_violations(f, loops, arrays):
+            for rule, bad in stmt_violations(f, prog, fi, loops, arrays, W):
                 cands.append((rule, fi, "stmt", spath, bad, loops))
-    # recursion: make some internal function call itself or a later one that calls back
     out = []
     byrule = {}
     for c in cands:
@@ -501,29 +718,41 @@ def mutants(prog, rnd, per_prog):
     rules = sorted(byrule)
     rnd.shuffle(rules)
     for rule in rules[:per_prog]:
-        _, fi, kind, path, bad, loops = rnd.choice(byrule[rule])
-        p2 = [dict(f) for f in prog]
-        body = p2[fi]["body"]
+        pool = byrule[rule]
+        if rule.startswith("pure_") and rnd.random() < 0.8:
+            pref = [c for c in pool if c[2] == "expr" and funs[c[1]]["vis"] == "External" and _in_return(funs[c[1]]["body"], c[3])]
+            top = [c for c in pref if _is_return_root(funs[c[1]]["body"], c[3])]
+            pool = top or pref or pool
+        _, fi, kind, path, bad, loops = rnd.choice(pool)
+        f2 = [dict(f) for f in funs]
+        body = f2[fi]["body"]
         if kind == "expr":
-            if prog[fi]["vis"] == "Ctor" and _uses_arg(bad):
+            if funs[fi]["vis"] == "Ctor" and _uses_arg(bad):
                 continue
-            p2[fi]["body"] = replace_at(body, path, bad)
+            f2[fi]["body"] = replace_at(body, path, bad)
         else:
             old = get_at(body, path)
-            p2[fi]["body"] = replace_at(body, path, ("SSeq", bad, old))
-        out.append((rule, f"f{fi}:{kind}@{'.'.join(map(str, path))}", p2))
-    ints = [j for j in range(1, len(prog)) if prog[j]["vis"] == "Internal"]
+            f2[fi]["body"] = replace_at(body, path, ("SSeq", bad, old))
+        # calling a later function must not create a cycle by accident: both verdicts are "reject" anyway
+        out.append((rule, f"f{fi}:{kind}@{'.'.join(map(str, path))}", {"funs": f2, "owns": prog["owns"]}))
+    ints = [j for j in range(1, len(funs)) if funs[j]["vis"] == "Internal"]
     if ints:
         j = rnd.choice(ints)
-        later = [k for k in ints if k >= j]
+        later = [k for k in ints if k >= j and funs[k].get("lib") == funs[j].get("lib")]
         k = rnd.choice(later)
-        p2 = [dict(f) for f in prog]
-        # j calls k (k >= j); if k > j, k already may call j only if we add it: add both edges
-        m_ok = lambda a, b: RANK[prog[b]["mut"]] <= RANK[prog[a]["mut"]] or RANK[prog[a]["mut"]] >= 2  # noqa
+        f2 = [dict(f) for f in funs]
+        m_ok = lambda a, b: RANK[funs[b]["mut"]] <= RANK[funs[a]["mut"]] or RANK[funs[a]["mut"]] >= 2  # noqa
         if m_ok(j, k) and m_ok(k, j):
             arg = ("EVar", "VLocal", 0)
-            p2[j]["body"] = ("SSeq", ("SExpr", ("ECall", k, arg)), p2[j]["body"])
+            f2[j]["body"] = ("SSeq", ("SExpr", ("ECall", k, arg)), f2[j]["body"])
             if k != j:
-                p2[k]["body"] = ("SSeq", ("SExpr", ("ECall", j, arg)), p2[k]["body"])
-            out.append(("recursion" if k == j else "mutual_recursion", f"f{j}<->f{k}", p2))
+                f2[k]["body"] = ("SSeq", ("SExpr", ("ECall", j, arg)), f2[k]["body"])
+            out.append(("recursion" if k == j else "mutual_recursion", f"f{j}<->f{k}", {"funs": f2, "owns": prog["owns"]}))
+    # module ownership
+    has_lib = any(g.get("lib") for g in funs)
+    if has_lib:
+        out.append(("uses_without_initializes", "module", {"funs": funs, "owns": "Uses"}))
+        main_touch = any(touches_lib(g["body"]) or any(U.get(j) for j in callees(g["body"])) for g in funs if not g.get("lib"))
+        if prog["owns"] == "Initializes" and main_touch:
+            out.append(("dropped_initializes", "module", {"funs": funs, "owns": "NoOwn"}))
     return out
